@@ -227,6 +227,10 @@ static WATCHDOG_LIMIT_MS: AtomicU64 = AtomicU64::new(60_000);
 /// pre-states, booting and verifying get 20x the limit, like collections).
 static WATCHDOG_STRICT: std::sync::atomic::AtomicBool = std::sync::atomic::AtomicBool::new(false);
 
+/// block_for_gc upcalls one call may make before it is reported as never giving up (the event log
+/// must have been emptied right before the call: `take_events()`).
+pub const MAX_BLOCKS_PER_CALL: usize = 32;
+
 pub fn watchdog_strict(on: bool) {
     WATCHDOG_STRICT.store(on, Ordering::SeqCst);
     tick();
@@ -291,6 +295,17 @@ pub fn start_watchdog() {
                 let cpu = cpu_nogc + cpu_gc;
                 let limit = WATCHDOG_LIMIT_MS.load(Ordering::SeqCst);
                 let dead_block = dead_block_since.map(|t| t.elapsed().as_secs() >= 5).unwrap_or(false);
+                // (d) one call under test that has blocked for a collection more than
+                // MAX_BLOCKS_PER_CALL times: after the emergency collection has failed the slow path
+                // must give up, so an honest request blocks a handful of times
+                let blocks = if WATCHDOG_STRICT.load(Ordering::SeqCst) {
+                    STATE.lock().map(|g| g.as_ref().map(|s| s.events.iter().filter(|e| matches!(e, VmEvent::BlockForGcEnter(_))).count()).unwrap_or(0)).unwrap_or(0)
+                } else {
+                    0
+                };
+                if blocks > MAX_BLOCKS_PER_CALL {
+                    worker_panic_to_crash(&format!("HANG endless_collections: the call has blocked for a collection {} times and has not returned ({} ms wall)", blocks, since.elapsed().as_millis()));
+                }
                 if cpu_nogc > limit || cpu_gc > 20 * limit || dead_block || since.elapsed().as_secs() > 900 {
                     worker_panic_to_crash(&format!("HANG no progress for {} ms wall / {} ms CPU (inside block_for_gc: {}, collection pending or running: {})", since.elapsed().as_millis(), cpu, blocked, gc));
                 }
@@ -424,6 +439,7 @@ impl Ctx {
         tick();
         let ooms_before = OOM_COUNT.load(Ordering::SeqCst);
         let t0 = if self.prof { Some(std::time::Instant::now()) } else { None };
+        let _ = take_events();
         watchdog_strict(true);
         let r = catch(|| self.w.alloc_raw(0, size, align, offset, sem, None));
         watchdog_strict(false);
